@@ -23,6 +23,7 @@
 //@   modifies ghost(ghaskv), ghost(gkv), ghost(gsetfail)
 
 package smtp
+
 //
 // The mail/line pump started per connection runs outside the connection's recover; it cannot panic
 // (property C01).
@@ -31,3 +32,12 @@ package smtp
 //@   requires conn != nil && s != nil
 //@   modifies *
 //@   loop 1: invariant conn != nil && s != nil
+//
+// ---- per-connection mail pump (properties C09 and C03) ----
+// The connection object is created on a server value and a line channel made for this connection (so
+// the pump started beside it sees this connection's mails and lines only), and the channel that stops
+// the pump is closed before Handle returns (no goroutine is left behind per past connection).
+//@ func (*Service).Handle
+//@   callpre (*Server).newConn: fresh(recv) && fresh(s)
+//@   ensures [pump-ends] result == nil ==> closed(done)
+//@   modifies *
